@@ -8,6 +8,8 @@ package yubiattest
 //vsym:model (crypto.Hash).Available m06aAvailable
 //vsym:model (crypto.Hash).New m06aNew
 //vsym:model (*crypto/x509.Certificate).Verify m06aCertVerify
+//vsym:model (*math/big.Int).String m06aBigString
+//vsym:model (crypto/x509/pkix.Name).String m06aNameString
 //vsym:replay none
 //vsym:expect-cover C06.cs.rsa-sha1 C06.cs.rsa-sha256 C06.cs.rsa-sha384 C06.cs.rsa-sha512 C06.cs.insecure C06.cs.unsupported-algorithm C06.cs.non-rsa-key C06.attest.ok C06.attest.chain-fails C06.attest.signature-fails
 //vsym:bound H06_checksignature: the signature-algorithm label any int; public key *rsa.PublicKey, *ecdsa.PublicKey, ed25519.PublicKey or nil; to-be-signed bytes and signature 2 symbolic bytes each
@@ -21,6 +23,7 @@ import (
 	"crypto/ed25519"
 	"crypto/rsa"
 	"crypto/x509"
+	"crypto/x509/pkix"
 	"errors"
 	"hash"
 	"math/big"
@@ -71,6 +74,9 @@ func m06aNew(h crypto.Hash) hash.Hash {
 	m06aHashes = append(m06aHashes, x)
 	return x
 }
+
+func m06aBigString(x *big.Int) string    { return "serial-7" }
+func m06aNameString(n pkix.Name) string { return "CN=device issuer" }
 
 type m06aVerifyCall struct {
 	cert *x509.Certificate
